@@ -231,3 +231,15 @@ claim("C36", "variant-arm agreement over instruction effects + rejection livenes
       "effect variant is classified; the consume_* transitions can raise their not-created / already-used / locked-by-proof rejections and mark "
       "the item consumed; invocations consume passed buckets/proofs/reservations; every ManifestValidationError variant is produced; end-of-"
       "manifest handling precedes every successful completion and raises the dangling-item errors. Agreement with run-time behaviour is not decided.")
+
+claim("C31", "audited panic surface (multiset per function) over the manifest compiler modules + pinned repaired invariant of the snippet builder",
+      "Decides the never-panics clause for manifest::{lexer,parser,token,compiler,diagnostic_snippets,generator,blob_provider}: every panic-capable "
+      "MIR construct is discharged by dominance or matches an audited entry with its reason; compile_manifest propagates every stage's error; the "
+      "snippet builder keeps line terminators (a genuine CRLF panic was found on the pinned tree and repaired by a fix: commit). Parsers living in "
+      "radix-common and external crates are outside the table; determinism rides on C01.", level="other")
+
+claim("C30", "table agreement from evaluated string constants and MIR string-match tables (parser) against decompiler and generator",
+      "Decides: instruction IDENT strings and ID discriminators are pairwise distinct; InstructionIdent::from_ident maps every pattern to exactly one "
+      "variant, knows every instruction's IDENT, maps it to the variant named after the instruction and produces every variant; every upper-case "
+      "command string the decompiler can emit (including aliases) is a parser pattern; the generator handles every variant; each decompile() "
+      "names its own IDENT. Value formatting/parsing round-trips and alias argument re-mapping are not decided.")
